@@ -20,7 +20,7 @@ EXPLANATION = ("Magnitudes a,b and the plain-number operand c are solver variabl
 ASSUMPTIONS = unitkit.UNITS_STUB_TEXT + [
     "equalities up to 1e-9 relative (table factors are binary64)",
     "power: value part claimed as pow(a, n/d) (uninterpreted for non-integer exponents, a > 0) and the unit factor part factor(u)**(n/d) concretely",
-    "division assumes a non-zero divisor",
+    "a division by a term that may be zero forks; on the zero side the library's own ZeroDivisionError propagates and is reported (no denominator is assumed away)",
 ]
 OUTSIDE = ['temperature / logarithmic operands (C05)', 'arrays longer than 2', 'binary64 rounding']
 BOUNDS = {'quick': {'unit pairs': '24 +/- pairs, 22 */ pairs', 'exponents': 'n/d, n in -3..3, d in 1..4, as int, tuple, Fraction, float'},
